@@ -759,3 +759,24 @@ def r17(rr, repo):
         rr.ob('the id is used up before the first data frame of the set is handed to a socket', bool(st) and p.events.index(st[0]) < first, za.mod, pubs[0].node,
               witness=f"store at line {st[0].node.lineno if st else '-'}, first data frame at line {pubs[0].node.lineno}", key='id-used-up-before-first-frame')
     rr.floor('publishing paths of send_maybe', n, 1, za.mod, za.S_maybe)
+
+
+@rule('C01.R18', "what a filter sends descends from the set whose id it is sent under: MQ.recv() hands the state of EVERY set it returns on to the next send (self.send_state takes the state the receiver "
+                 "returned with that set, on every path that returns frames). A state kept from an earlier set - one the filter skipped by returning None, or gave up on - labels the frames of the "
+                 "next set with the skipped set's id, and a rejoin completes the other branch's set of that id with them")
+def r18(rr, repo):
+    from ..paths import Evaluator
+    mqm, mq_recv = repo.find(f'{MQF}::MQ.recv')
+    n = 0
+    for p in Evaluator(repo, mqm).run(mq_recv.body):
+        got = [v for k, v in p.pc if k.startswith('isnone(self.receiver.recv(')]
+        if not got or got[0] is not False:
+            continue
+        if p.outcome is not None and p.outcome[0] == 'raise':
+            continue
+        n += 1
+        st = [e for e in p.events if e.kind == 'store' and e.term == 'self.send_state']
+        ok = bool(st) and 'self.receiver.recv(' in st[-1].args[0] and st[-1].args[0].rstrip().endswith('[1]')
+        rr.ob('the state returned with the set becomes the state of the next send, whatever state was left over', ok, mqm, st[-1].node if st else mq_recv,
+              witness=(st[-1].args[0][-80:] if st else 'no store to self.send_state on this path') + ' | ' + p.pc_text()[-160:], key='send-state-taken-from-every-set')
+    rr.floor('paths of MQ.recv that return a set', n, 1, mqm, mq_recv)
